@@ -22,9 +22,9 @@ Proof.
     + intro E. inversion E; subst. exact G1.
 Qed.
 
-Lemma tick_good dt db r0 r p r' : good dt db r0 r -> tick r = (p, r') -> good dt db r0 r'.
+Lemma pipeline_good dt db r0 r p r' : good dt db r0 r -> pipeline r = (p, r') -> good dt db r0 r'.
 Proof.
-  intros G. unfold tick.
+  intros G. unfold pipeline.
   destruct (stage_loop bottom_up (Z.to_nat (r_width r)) r) as [p1 r1] eqn:S1.
   destruct (stage_loop parse_bottom (Z.to_nat (r_width r)) r1) as [p2 r2] eqn:S2.
   destruct (stage_loop top_down (Z.to_nat (r_width r)) r2) as [p3 r3] eqn:S3.
@@ -32,6 +32,17 @@ Proof.
   pose proof (stage_loop_good bottom_up dt db r0 (fun a b c => bottom_up_inv a b c dt db) _ _ _ _ G S1) as G1.
   pose proof (stage_loop_good parse_bottom dt db r0 (fun a b c => parse_bottom_inv a b c dt db) _ _ _ _ G1 S2) as G2.
   apply (stage_loop_good top_down dt db r0 (fun a b c => top_down_inv a b c dt db) _ _ _ _ G2 S3).
+Qed.
+
+Lemma tick_good dt db r0 r p r' : good dt db r0 r -> tick r = (p, r') -> good dt db r0 r'.
+Proof.
+  intros [I [H C]]. unfold tick.
+  destruct (process_control r) as [p0 rc] eqn:PC.
+  destruct (process_control_inv r p0 rc dt db I H PC) as [I1 [H1 C1]].
+  assert (G1 : good dt db r0 rc) by (split; [exact I1|split; [exact H1|eapply same_cfg_trans; eassumption]]).
+  destruct ((r_cstate rc =? 0) || (r_cstate rc =? 3)).
+  - destruct (pipeline rc) as [pp r1] eqn:PL. intro E. inversion E; subst. apply (pipeline_good dt db r0 rc pp r' G1 PL).
+  - intro E. inversion E; subst. exact G1.
 Qed.
 
 (** changing only the incoming buffers keeps everything *)
@@ -57,18 +68,28 @@ Proof.
   apply IH. apply set_in_good. exact G.
 Qed.
 
+Lemma deliver_ctl_good dt db r0 cs : forall r, good dt db r0 r -> good dt db r0 (deliver_ctl r cs).
+Proof.
+  unfold deliver_ctl. induction cs as [|c rest IH]; intros r G; cbn [fold_left]; [exact G|].
+  destruct (N.of_nat (length (r_ctl_in r)) <? r_ctl_cap r); [|apply IH; exact G].
+  apply IH. destruct G as [I [[H1 H2] C]].
+  split; [apply upd_ctl_inv; [lia|exact I]|split; [split; assumption|exact C]].
+Qed.
+
 Lemma env_step_good dt db r0 r i r' ob : good dt db r0 r -> env_step r i = (r', ob) ->
   good (dt ++ to_top ob) (db ++ to_bot ob) r0 r'.
 Proof.
-  intros G. unfold env_step.
-  pose proof (deliver_bot_good dt db r0 (i_bot i) _ (deliver_top_good dt db r0 (i_top i) r G)) as G0.
-  destruct (tick (deliver_bot (deliver_top r (i_top i)) (i_bot i))) as [p r1] eqn:T.
+  intros G. unfold env_step, ckpt_roundtrip.
+  replace (if i_ckpt i then r else r) with r by (destruct (i_ckpt i); reflexivity).
+  pose proof (deliver_ctl_good dt db r0 (i_ctl i) _
+                (deliver_bot_good dt db r0 (i_bot i) _ (deliver_top_good dt db r0 (i_top i) r G))) as G0.
+  destruct (tick (deliver_ctl (deliver_bot (deliver_top r (i_top i)) (i_bot i)) (i_ctl i))) as [p r1] eqn:T.
   pose proof (tick_good dt db r0 _ _ _ G0 T) as [I [[H1 H2] C]].
   intro E. inversion E; subst. cbn [to_top to_bot].
   split; [|split; [|exact C]].
-  - constructor; unfold upd_ports; cbn [g_acc g_rel r_trans r_next_id g_shadow];
+  - constructor; cbn [g_acc g_rel r_trans r_next_id g_shadow];
       [apply (i_order r1 I)|apply (i_rel r1 I)|apply (i_ok r1 I)|apply (i_fresh r1 I)|apply (i_nodup r1 I)|apply (i_shadow r1 I)].
-  - unfold hist, upd_ports; cbn [g_rel g_shadow r_top_out r_bot_out].
+  - unfold hist; cbn [g_rel g_shadow r_top_out r_bot_out].
     rewrite <- !app_assoc, !firstn_skipn. split; assumption.
 Qed.
 
@@ -94,7 +115,7 @@ Qed.
 Lemma kth_answer r k rsp : inv r -> nth_error (map fst (g_rel r)) k = Some rsp ->
   exists q sid t, nth_error (g_acc r) k = Some (q, sid) /\ akey (q, sid) = tkey t /\
                   rsp_answers (rsp, t) /\ trans_ok t /\
-                  nth_error (g_shadow r) k = Some (shadow_of q sid).
+                  In (shadow_of q sid) (g_shadow r).
 Proof.
   intros I H. apply nth_error_map_inv in H. destruct H as [[rsp' t] [Hn Hf]]. cbn [fst] in Hf. subst rsp'.
   assert (Ht : nth_error (map snd (g_rel r) ++ r_trans r) k = Some t).
@@ -105,5 +126,5 @@ Proof.
   exists q, sid, t. split; [exact Ha|split; [exact Hkey|split; [|split]]].
   - apply (proj1 (Forall_forall _ _) (i_rel r I)). apply (nth_error_In _ _ Hn).
   - apply (proj1 (Forall_forall _ _) (i_ok r I)). apply (nth_error_In _ _ Ht).
-  - rewrite (i_shadow r I). apply (map_nth_error (fun a => shadow_of (fst a) (snd a)) _ _ Ha).
+  - apply (i_shadow r I (q, sid)). apply (nth_error_In _ _ Ha).
 Qed.
